@@ -129,7 +129,7 @@ Theorem C15_interrupted_build_refuted :
     snd (create_table G core (fst (create_table G core_i gs0 o_i)) o)
       <> snd (create_table G core gs0 o).
 Proof.
-  exists G1, core_int, core_slr, [NT 1; T 1], (mkB 2 true true true), (mkB 1 false false false).
+  exists G1, core_int, core_slr, [NT 1; T 1], (mkB 2 true true true true), (mkB 1 false false false true).
   split; [vm_compute; reflexivity|]. split; [intros; discriminate|].
   vm_compute. discriminate.
 Qed.
